@@ -7,6 +7,7 @@ shard: kind = int_scalar | int_elem | int_slice | float_scalar | float_slice | s
        field (name of the field of MDF_VALIDATOR_A), n (list length), bad (index into BAD menu), depth (disable nesting)
 symbolic: unbounded ints, IEEE doubles (all bit patterns), str/bytes of bounded length, indices, slice bounds, exit bits
 """
+import ctypes
 import math
 import sys
 
@@ -295,6 +296,55 @@ def wrongtype(i):
     if acc and not legit:
         return False, "%s accepted a %s" % (field, type(bad).__name__)
     return True, ""
+
+
+CT_SRC = {"int8": ctypes.c_int8, "uint8": ctypes.c_uint8, "int16": ctypes.c_int16, "uint16": ctypes.c_uint16, "int32": ctypes.c_int32,
+          "uint32": ctypes.c_uint32, "int64": ctypes.c_int64, "uint64": ctypes.c_uint64}
+
+
+def ctypes_seq(whole):
+    """a ctypes array (any element type) assigned to an integer array field: its elements are held to the field's range like
+    those of any other sequence.  shard: field, src (element type of the assigned array), pos, extreme ("max" | "min")"""
+    field = sh("field")
+    lo, hi = rng(field)
+    T = CT_SRC[sh("src")]
+    bits, signed = SH.INT_TYPES[T]
+    tlo, thi = SH.int_range(bits, signed)
+    vals = [1, 2, 3, 4]
+    vals[sh("pos", 1)] = thi if sh("extreme", "max") == "max" else tlo
+    src = (T * 4)(*vals)
+    m = fresh()
+    if whole:
+        acc, why = attempt(m, lambda: assign(m, field, src))
+    else:
+        acc, why = attempt(m, lambda: read(m, field).__setitem__(slice(0, 4), src))
+    if acc is None:
+        return False, why
+    in_domain = all(lo <= v <= hi for v in vals)
+    if acc and not in_domain:
+        return False, "%s accepted a ctypes array of %s holding %d, outside its range" % (field, sh("src"), vals[sh("pos", 1)])
+    if acc:
+        got = read(m, field)[:]
+        for j in range(4):
+            if got[j] != vals[j]:
+                return False, "read back differs"
+    elif in_domain:
+        return False, "%s refused a ctypes array whose elements all fit (%s)" % (field, why)
+    return True, ""
+
+
+def h_ctypes_seq(whole: bool) -> bool:
+    """
+    post: _
+    """
+    return verdict(ctypes_seq(whole))
+
+
+def h_ctypes_seq_reach(whole: bool) -> bool:
+    """
+    post: _
+    """
+    return reached(ctypes_seq(whole))
 
 
 def struct_set(k, i):
